@@ -1,6 +1,7 @@
 package engine
 
 import (
+	"os"
 	"fmt"
 	"go/token"
 	"go/types"
@@ -235,10 +236,10 @@ func (e *Engine) makeSlice(in *ssa.MakeSlice, ln, cp *Term) Value {
 	elem := in.Type().Underlying().(*types.Slice).Elem()
 	ln = e.toIndex(ln, in.Len.Type())
 	cp = e.toIndex(cp, in.Cap.Type())
-	n := e.allocSize(ln, "make len")
+	n := e.allocSize(ln, "make len in "+in.Parent().String())
 	c := n
 	if cp != ln {
-		c = e.allocSize(cp, "make cap")
+		c = e.allocSize(cp, "make cap in "+in.Parent().String())
 	}
 	if n < 0 || c < n {
 		panic(e.targetPanicStr("runtime error: makeslice: len out of range"))
@@ -251,6 +252,7 @@ func (e *Engine) makeSlice(in *ssa.MakeSlice, ln, cp *Term) Value {
 // Bounds["alloc_enum"] (default 64); larger feasible sizes end the path as a
 // recorded cut (outside the claim), after the obligation has been checked.
 func (e *Engine) allocSize(t *Term, what string) int64 {
+	t = e.subst(t)
 	if t.IsConst() {
 		v := sext64(t.C, 64)
 		if e.allocLimit > 0 && v > e.allocLimit {
@@ -274,7 +276,18 @@ func (e *Engine) allocSize(t *Term, what string) int64 {
 	}
 	small := e.tb.Cmp(OpSle, t, e.tb.Const(64, uint64(k)))
 	if !e.Branch(small) {
-		e.event(Event{Kind: "cut", Label: "alloc.large", Msg: fmt.Sprintf("%s larger than %d: path cut after obligation check", what, k)})
+		if os.Getenv("GOSYM_SHOW_CUTS") != "" {
+			fmt.Printf("DEBUG cut: t=%s replay=%v npins=%d\n", t, e.inReplay(), len(e.pins))
+			for id, k := range e.pins {
+				for _, tt := range e.tb.tab {
+					if tt.ID == id && len(tt.String()) < 80 {
+						fmt.Printf("   pin %s := %s\n", tt, k)
+					}
+				}
+			}
+		}
+		e.refreshModelSafe()
+		e.event(Event{Kind: "cut", Label: "alloc.large", Msg: fmt.Sprintf("%s larger than %d: path cut after obligation check [size=%s]", what, k, t), Tape: e.mkTape("cut", "alloc.large", e.model, "")})
 		panic(pathEnd{"cut", "large symbolic allocation"})
 	}
 	return e.concInt(t, what)
